@@ -463,7 +463,10 @@ func upscale(a, b *Decimal, tmp *BigInt) (*BigInt, *BigInt, int32, error) {
 	s := int64(a.Exponent) - int64(b.Exponent)
 	// TODO(mjibson): figure out a better way to upscale numbers with highly
 	// differing exponents.
-	if s > MaxExponent {
+	// The exponents of two operands within the package limits differ by up to
+	// 2*MaxExponent, and a result of the package can have an exponent as low as
+	// MinExponent-Precision+1.
+	if s > 3*MaxExponent {
 		return nil, nil, 0, errors.New(errExponentOutOfRangeStr)
 	}
 	x := tmp
